@@ -343,8 +343,12 @@ class Run:
         self.notes = []
         self.known_seen = []
 
-    def add_corr_break(self, what, case=None):
-        self.corr_breaks.append({"what": what, "case": case})
+    def add_corr_break(self, what, case=None, shape=False):
+        """shape=True: the break is only that a source-SHAPE matcher (a model-switch translator, a source-shape
+        tie, the anchor of an overlay hook) did not recognise the current source text.  The model then keeps the
+        variant its theorems were proved for and the behavioural correspondence (harness vs model) decides: see
+        finish() and the driver `check` (soft shape policy)."""
+        self.corr_breaks.append({"what": what, "case": case, "shape": bool(shape)})
 
     def add_oracle_failure(self, signature, what, case=None):
         self.oracle_failures.append({"signature": signature, "what": what, "case": case})
@@ -398,6 +402,30 @@ class Run:
                                    "what": f["what"], "case": f["case"], "seed": self.seed, "tier": self.tier,
                                    "broken_obligations": broke})
                 lines.append("VIOLATION property=%s replay=%s" % (prop, rp))
+            elif (self.proof is None or self.proof["ok"]) and self.corr_breaks and all(c.get("shape") for c in self.corr_breaks):
+                # Soft shape policy.  Every broken obligation is an unrecognised source shape; the proofs stand for the
+                # model variant in force and the harness, run against that variant, found no disagreement and no oracle
+                # failure.  The model is then still tied to the code by the correspondence check (the second of the two
+                # admissible ties), so this is not reported as a violation — but only after the driver has repeated the
+                # behavioural check with further seeds (return code 3 asks for that; VERIF_SHAPE_SOFT=1 marks the repeats).
+                self.coverage["source_shape_unrecognised"] = [c["what"] for c in self.corr_breaks]
+                self.notes.append("source shape not recognised by %d matcher(s); model variant of the last successful translation kept; "
+                                  "decided by the behavioural correspondence" % len(self.corr_breaks))
+                if os.environ.get("VERIF_SHAPE_SOFT") == "1":
+                    self.coverage["source_shape_confirmed_by_seed"] = self.seed
+                    self.corr_breaks_soft = list(self.corr_breaks)
+                    self.corr_breaks = []
+                    self.write_evidence(0)
+                    for l in lines:
+                        print(l)
+                    print("NOTE: property=%s source shape not recognised (%d matcher(s)); behaviour agrees with the model on every case of this run"
+                          % (prop, len(self.corr_breaks_soft)))
+                    sys.stdout.flush()
+                    return 0
+                self.shape_only = True
+                self.pending_lines = lines
+                self.write_evidence(0)
+                return 3
             else:
                 rp = write_replay(prop, "broken_obligation",
                                   {"property": prop, "kind": "broken-obligation", "broken_obligations": broke,
@@ -406,6 +434,18 @@ class Run:
                                    "note": "no concrete failing input was found by the violation search; the property is no longer shown to hold"})
                 lines.append("VIOLATION property=%s replay=%s no-failing-input-found" % (prop, rp))
             violations += 1
+        if not violations and search is not None and os.environ.get("VERIF_FORCE_SEARCH") == "1":
+            # self-test of the violation search (it normally runs only after a break): on a tree where the property
+            # holds it must find nothing that is not a listed known finding
+            try:
+                found = [f for f in (search() or []) if f["signature"] not in ksigs]
+            except Exception as ex:
+                found = [{"signature": "search-raised", "what": repr(ex), "case": None}]
+            for f in found[:5]:
+                lines.append("SEARCH-SELFTEST-FAILURE property=%s %s: %s" % (prop, f["signature"], str(f["what"])[:200]))
+            self.coverage["search_selftest_failures"] = len(found)
+            if found:
+                violations += 1
         self.write_evidence(violations)
         for l in lines:
             print(l)
